@@ -12,6 +12,10 @@ CHECKS = {
    text='Unbounded Coq theorems: the Jordan-Wigner model (a transcription of _jordan_wigner_fermion_operator on top of the proved QubitOperator arithmetic) denotes the Fock-space action of every FermionOperator (jw_ladder_sound, jw_sound, jw0_sound). Every other path (Hermitian InteractionOperator, DiagonalCoulombHamiltonian, jordan_wigner_one_body/two_body on all index coincidence patterns, reverse_jordan_wigner) is decided per input by the checker fermi_pauli_equiv, proved sound in Coq, run by vm_compute on the exact values returned by the implementation against a spec operator built by the harness.',
    note='Unbounded proof for the FermionOperator path model; fast paths are translation-validated per input by a verified checker (not proved for all inputs). Dual-basis jellium helpers: float comparison. Trusted: kernel+VM, harness spec construction and serialisation.',
    tech='Coq proof of JW soundness + verified equivalence checker (Pauli normal form) evaluated by vm_compute'),
+ 'C03': dict(cat='proof', design='3/C03',
+   text='Coq: the canonical anticommutation relations are proved for all modes/states in the Fock semantics (the rewrite rules of normal ordering); an executable transcription of normal_ordered_ladder_term / normal_ordered_quad_term is proved, by complete enumeration inside Coq, to preserve the denotation, produce normal-ordered terms and be idempotent on all words of length <= 4 (3 fermionic modes; 2 bosonic/quadrature modes, hbar = 2 and 1/2). Every implementation output (exhaustive small words + random operators, large indices, all three algebras, several hbar, InteractionOperator, chemist_ordered, reorder, two spellings of one operator) is compared with the model and judged by the verified checker fermi_equiv / the Bargmann-Fock action.',
+   note='Unbounded: CAR lemmas and checker soundness. Bounded [B]: model correctness on the stated word domain. Beyond it: per-input validation of implementation outputs. Completeness of the boson/quad grid test (operators of degree <= d agree iff they agree on monomials of exponent <= d) is cited, not formalised.',
+   tech='Coq proof (CAR, checker soundness) + exhaustive vm_compute theorems + verified-checker translation validation'),
 }
 def main():
     fixes = subprocess.run("git -C /repo log --format=%H --grep='^fix:'", shell=True, capture_output=True, text=True).stdout.split()
